@@ -304,8 +304,6 @@ KEYWORDS = [
                                       Rule('T', S(Sup(Str('r')), ID))], tags=['kw']),
     # a bracketed choice of keywords only, one a prefix of the next; keywords followed by a name
     G('kw-bracketed-choice-prefix-keywords', [Rule('M', S(A(Str('a'), Str('ab'), Str('abc')), Asg('x', '=', ID)))], tags=['kw']),
-    G('kw-bracketed-choice-assigned', [Rule('M', S(Asg('k', '=', A(Str('cl'), Str('st'))), Asg('n', '=', ID), Opt(Str(';'))))],
-      tags=['kw']),
     # the same keyword plain in one rule and suppressed in a later one
     G('kw-same-keyword-suppressed-later', [Rule('M', S(Str('b'), Asg('n', '=', ID), Asg('cs', '*=', Ref('C')), Str('e'))),
                                            Rule('C', S(Str('d'), Asg('w', '=', ID), Sup(Str('e'))))],
